@@ -25,6 +25,17 @@ def or3 (vs : List Val) : Val :=
   if vs.any (fun v => tv v == some true) then .bool true
   else if vs.any (fun v => (tv v).isNone) then .null else .bool false
 
+/-- `(x * 10.0 ** k).round() / 10.0 ** k` (sql_model._db_around_expr) for a NEGATIVE whole `k` (`p = 1 / 10^|k|`): SQL ROUND
+rounds half away from zero -/
+def aroundNegSql (x k : Rat) : Val :=
+  if k.den == 1 then
+    let p : Rat := 1 / ratPow 10 (-k.num).toNat
+    let y := (if x < 0 then -x else x) * p
+    let f : Int := y.floor
+    let r : Int := if y - f < 1/2 then f else f + 1
+    .num ((if x < 0 then -1 else 1) * (r : Rat) / p)
+  else .null
+
 def scalar (op : String) (args : List ArgV) : Val :=
   let vs := args.map cell
   match op, vs with
@@ -47,7 +58,7 @@ def scalar (op : String) (args : List ArgV) : Val :=
          let f : Int := y.floor
          let r : Int := if y - f < 1/2 then f else f + 1
          .num ((if x < 0 then -1 else 1) * (r : Rat) / p)
-       else .null
+       else aroundNegSql x k
      | none => .null)
   | _, _ =>
     match op, args with
